@@ -74,3 +74,75 @@ func skeletonProgram(body []string, variant int) *program {
 	prog.nq = 4
 	return prog
 }
+
+// Clause selection, exhaustively over small shapes (C01, C02): a predicate whose
+// clauses have one head shape each (closed lists of length 0-3, list patterns,
+// string-backed lists, atoms, integers, compounds of two arities, a repeated
+// variable), called with every argument shape (the same ones plus partial lists
+// of every prefix length and unbound variables); the answers are the numbers of
+// the clauses whose head unifies with the argument, in clause order.
+func selHeadShapes() []*G {
+	return []*G{
+		ga("[]"), glist([]*G{gv(0)}, nil), glist([]*G{gv(0), gv(1)}, nil), glist([]*G{gv(0), gv(1), gv(2)}, nil),
+		glist([]*G{ga("a")}, nil), glist([]*G{ga("a"), ga("b")}, nil), glist([]*G{gv(0)}, gv(1)), glist([]*G{ga("a")}, gv(1)),
+		gstr("ab"), gstr("a"), ga("a"), gi(1), gc("f", gv(0)), gc("f", ga("a")), gc("f", ga("a"), ga("b")), gv(0), gc("g", gv(0), gv(0)),
+		glist([]*G{gv(0), gv(0)}, nil),
+	}
+}
+
+func selArgShapes() []*G {
+	a := selHeadShapes()
+	a = append(a,
+		glist([]*G{ga("a")}, gv(3)), glist([]*G{ga("a"), ga("b")}, gv(3)), glist([]*G{gv(2)}, gv(3)), glist([]*G{gv(2), gv(4)}, gv(3)),
+		glist([]*G{ga("b")}, gv(3)), glist([]*G{gv(2), ga("b")}, gv(3)), glist([]*G{ga("a"), ga("b"), ga("c")}, gv(3)),
+		gc("g", ga("a"), gv(3)), gc("g", ga("a"), ga("b")), gc("f", gv(3)), ga("b"), gi(2))
+	return a
+}
+
+func selectionPrograms() []*program {
+	heads := selHeadShapes()
+	var out []*program
+	for pos := 0; pos < 3; pos++ { // the shape as first argument, as second argument, nested in a compound
+		wrap := func(t *G, n *G) *G {
+			switch pos {
+			case 0:
+				return gc("sel", t, n)
+			case 1:
+				return gc("sel", n, t)
+			}
+			return gc("sel", gc("w", t, ga("k")), n)
+		}
+		for g := 0; g < 3; g++ { // three groups of clauses, so that the answer limit is never reached
+			var cl []*G
+			for i := g; i < len(heads); i += 3 {
+				cl = append(cl, renumber(wrap(heads[i], gi(int64(i)))))
+			}
+			for _, a := range selArgShapes() {
+				prog := &program{}
+				prog.clauses = append(prog.clauses, cl...)
+				// query variables: the argument's own variables (0..4 after the shift) and the answer V5
+				prog.query = wrap(shiftVars(a, 0), gv(5))
+				prog.nq = 6
+				out = append(out, prog)
+			}
+		}
+	}
+	return out
+}
+
+func shiftVars(t *G, d int) *G {
+	switch t.K {
+	case 'v':
+		if t.V < 0 {
+			return t
+		}
+		return gv(t.V + d)
+	case 'c':
+		y := &G{K: 'c', S: t.S, Q: t.Q}
+		for _, a := range t.Args {
+			y.Args = append(y.Args, shiftVars(a, d))
+		}
+		return y
+	}
+	return t
+}
